@@ -16,7 +16,7 @@ import threading as _threading
 import time as _time
 import types
 
-from .runner import HarnessError
+from .runner import HarnessError, SetupFailed
 from . import vworld
 
 CLIENT_ADDR = ("10.0.0.2", 40000)
@@ -281,7 +281,7 @@ def run_structure_transfers(S, C, transfers):
             eng.stop_when = lambda: req not in sock._receive_handlers and not eng.inbox and not sock._send_handlers
             eng.run()
             if req in sock._receive_handlers:
-                raise HarnessError("threaded transfer did not finish within the iteration budget")
+                raise SetupFailed("threaded transfer did not finish within the iteration budget")
             wire = eng.wire[w0:]
             seg_faults = sum(1 for w in wire if w[1] == "s2c" and w[3] != "deliver")
             req_faults = sum(1 for w in wire if w[1] == "c2s" and w[3] != "deliver")
